@@ -381,3 +381,54 @@ func VerifC07ClosedParent() {
 	verifrt.Assert("c07.closed-parent.no-gauge-or-timer-from-an-inert-scope", n == 0)
 	verifrt.Reach("c07.closed-parent.end")
 }
+
+// VerifC07CycleHistogram: the obtain / record / Close / obtain again / record cycle of
+// VerifC07Cycle with a histogram and a gauge instead of the counter (every metric kind that is
+// buffered in the scope must survive a Close that lands while a pass is reporting that scope):
+// both samples are delivered exactly once, the gauge's last update is delivered.
+func VerifC07CycleHistogram() {
+	rec := &lockedReporter{}
+	root := newRootScope(ScopeOptions{Reporter: rec, OmitCardinalityMetrics: true, registryShardCount: 1}, 0)
+	pre := root.SubScope("a")
+	// the bucket has been reported once already (its handle is claimed)
+	pre.Histogram("h", ValueBuckets{1}).RecordValue(0)
+	root.reportRegistry()
+	g1 := verifrt.Float64("gauge")
+	withGauge := verifrt.Choose("with-gauge", 2) == 1 // a histogram alone, or together with a gauge
+	var wg sync.WaitGroup
+	verifrt.Explore(2)
+	wg.Add(2)
+	go func() {
+		defer wg.Done()
+		pre.Histogram("h", ValueBuckets{1}).RecordValue(0)
+		if withGauge {
+			pre.Gauge("g").Update(g1)
+		}
+		pre.(io.Closer).Close()
+	}()
+	go func() {
+		defer wg.Done()
+		root.reportRegistry()
+	}()
+	wg.Wait()
+	verifrt.StopExplore()
+	root.reportRegistry()
+	root.reportRegistry()
+	var samples int64
+	var gauges int
+	var last uint64
+	for _, c := range rec.calls {
+		if c.kind == "hv" && c.name == "a.h" {
+			samples += c.i
+		}
+		if c.kind == "gauge" && c.name == "a.g" {
+			gauges++
+			last = fbits(c.f)
+		}
+	}
+	verifrt.Assert("c07.cycle-histogram.samples-recorded-before-close-delivered-exactly-once", samples == 2)
+	if withGauge {
+		verifrt.Assert("c07.cycle-histogram.gauge-updated-before-close-delivered", gauges == 1 && last == fbits(g1))
+	}
+	verifrt.Reach("c07.cycle-histogram.end")
+}
